@@ -15,9 +15,9 @@ import (
 type c05World struct {
 	Gen     *GenWorld `json:"gen,omitempty"` // generated VoD world instead of the bundled assets
 	VodRoot string    `json:"vodroot"`
-	Asset   string `json:"asset"`
-	MPD     string `json:"mpd"`
-	Cfg     URLCfg `json:"cfg"`
+	Asset   string    `json:"asset"`
+	MPD     string    `json:"mpd"`
+	Cfg     URLCfg    `json:"cfg"`
 }
 
 type c05Op struct {
